@@ -932,6 +932,15 @@ def gen_listings():
     ctext = strip_comments(src("c/blake3_impl.h"))
     cmax = [int(x) for x in re.findall(r"#define\s+MAX_SIMD_DEGREE\s+(\d+)", ctext)]
     o.append(f"def cMaxSimdDegrees : List Nat := {cmax}")
+    # the detection-cache protocol of get_cpu_features(): every access to g_cpu_features, in source order
+    params, body = find_fn(A, "c/blake3_dispatch.c", r"get_cpu_features\s*\(")
+    acc = []
+    for m in re.finditer(r"ATOMIC_LOAD\(\s*g_cpu_features\s*\)|ATOMIC_STORE\(\s*g_cpu_features\s*,\s*([^)]*)\)|g_cpu_features\s*=\s*([^;]+);", body):
+        if m.group(0).startswith("ATOMIC_LOAD"):
+            acc.append("load")
+        else:
+            acc.append("store " + re.sub(r"\s+", "", (m.group(1) or m.group(2) or "")))
+    o.append(f"def cDetectAccesses : List String := {lean_strs(acc)}")
     o.append("")
     o.append("end B3.Gen.Listings")
     return "\n".join(o) + "\n"
